@@ -219,6 +219,13 @@ fn run_d<const D: usize>(toks: &[&str]) -> String {
                 Ok(l) => l,
                 Err(_) => return INVALID.to_string(),
             };
+            // huge shapes are only probed where the product overflows `usize` or with short data:
+            // never allocate them (`new` / `read` of a big product that fits are out of scope)
+            let zero = dims_v.contains(&0);
+            let big_prod = dims_v.iter().fold(1u128, |a, &d| a.saturating_mul(d as u128));
+            if !zero && big_prod < (1u128 << 64) && big_prod > 100000 && toks[1] != "vec" && toks[1] != "slice" {
+                return INVALID.to_string();
+            }
             let data: Vec<i64> = (0..len as i64).collect();
             let show = |t: Tensor<i64, D>| format!("ok dims={} len={}", show_list(t.dims().iter()), t.iter().count());
             let r = match toks[1] {
@@ -226,8 +233,7 @@ fn run_d<const D: usize>(toks: &[&str]) -> String {
                 "slice" => catch(|| show(Tensor::<i64, D>::from_slice(dims, &data))),
                 "new" => catch(|| show(Tensor::<i64, D>::new(dims, 7))),
                 "read" => {
-                    let n: usize = dims_v.iter().product();
-                    if !dims_v.contains(&0) && len < n {
+                    if !zero && big_prod < (1u128 << 64) && (len as u128) < big_prod {
                         return INVALID.to_string();
                     }
                     let text: Vec<String> = data.iter().map(|x| x.to_string()).collect();
@@ -297,6 +303,31 @@ fn run_d<const D: usize>(toks: &[&str]) -> String {
             } else {
                 out1(&e.to_string())
             }
+        }
+        "debug" => {
+            if toks.len() != 3 {
+                return INVALID.to_string();
+            }
+            let dims_v = match parse_usizes(toks[1]) {
+                Some(a) => a,
+                None => return INVALID.to_string(),
+            };
+            let dims = match arr::<D>(&dims_v) {
+                Some(a) => a,
+                None => return INVALID.to_string(),
+            };
+            let xs = match parse_i64s(toks[2]) {
+                Some(x) => x,
+                None => return INVALID.to_string(),
+            };
+            if dims_v.contains(&0) || xs.len() != dims_v.iter().product::<usize>() {
+                return INVALID.to_string();
+            }
+            let t = match catch(|| Tensor::<i64, D>::from_vec(dims, xs)) {
+                Ok(t) => t,
+                Err(_) => return INVALID.to_string(),
+            };
+            out1(&res(catch(|| escape(format!("{:?}", t).as_bytes()))))
         }
         "write" | "rt" => {
             let off = if toks[0] == "rt" { 1 } else { 0 };
@@ -525,6 +556,44 @@ fn gen(args: &Args, emit: &mut dyn FnMut(String), st: &mut Stats) {
         }
     }
 
+    // (2b) extents whose product does not fit `usize` (the checked build must reject them with
+    //      an overflow panic; an unchecked build would wrap, e.g. 2^32 * 2^32 = 0 = len of an empty vec)
+    let huge: Vec<Vec<usize>> = vec![
+        vec![1 << 32, 1 << 32],
+        vec![1 << 63, 2],
+        vec![2, 1 << 63],
+        vec![usize::MAX, usize::MAX],
+        vec![usize::MAX, 2],
+        vec![1 << 32, 1 << 32, 1],
+        vec![1, 1 << 32, 1 << 32],
+        vec![1 << 22, 1 << 22, 1 << 22],
+        vec![3, 1 << 62, 3],
+        vec![1 << 16, 1 << 16, 1 << 16, 1 << 16],
+        vec![1 << 16, 1 << 16, 1 << 16, (1 << 16) + 1],
+        vec![1 << 32, 1 << 32, 0],
+        vec![0, 1 << 63, 1 << 63, 2],
+        // products that fit but are far from the data length
+        vec![1 << 31, 1 << 31],
+        vec![1 << 16, 1 << 16, 1 << 16, (1 << 16) - 1],
+        vec![usize::MAX],
+        vec![usize::MAX, 1],
+    ];
+    for dims in &huge {
+        let ds = join(dims);
+        for kind in ["vec", "slice"] {
+            for l in [0usize, 1, 5] {
+                emit(format!("ctor {} {} {}", kind, ds, l));
+                st.bump("ctor_huge_extents");
+            }
+        }
+        let p = dims.iter().fold(1u128, |a, &d| a.saturating_mul(d as u128));
+        if dims.contains(&0) || p >= 1u128 << 64 {
+            emit(format!("ctor new {} 0", ds));
+            emit(format!("ctor read {} 3", ds));
+            st.add("ctor_huge_extents", 2);
+        }
+    }
+
     // (3) equality across all pairs of shapes of equal rank with equal element count
     let eq_max = if thorough { 64 } else { 24 };
     for rank in 0..=4usize {
@@ -574,6 +643,8 @@ fn gen(args: &Args, emit: &mut dyn FnMut(String), st: &mut Stats) {
             let ds = join(&dims);
             let xi: Vec<String> = (0..n).map(|_| rand_i64_elem(&mut rng).to_string()).collect();
             let xs: Vec<String> = (0..n).map(|_| rand_str_elem(&mut rng)).collect();
+            emit(format!("debug {} {}", ds, join_s(&xi)));
+            st.bump("debug");
             emit(format!("write i64 {} {}", ds, join_s(&xi)));
             emit(format!("write str {} {}", ds, join_s(&xs)));
             let c1 = *rng.pick(&chunks);
